@@ -631,6 +631,9 @@ def main(argv=None):
         else:
             bounded_res.append({"name": name, "bound": bound, "result": "skipped in quick tier", "label": "bounded (not counted as proved)"})
 
+    # obligations that fail only as recorded known findings are reported separately, not as proof obligations
+    kf_only = {label for label, _ in known_seen} - {v[0] for v in violations} - {u[0] for u in undecided}
+    n_obl -= len(kf_only)
     # ---- report
     seen_kf = set()
     for label, kf in known_seen:
@@ -670,6 +673,7 @@ def main(argv=None):
             "undecided": [list(u) for u in undecided],
             "not_decided_clauses": list(P.not_decided),
             "known_findings_seen": [k[1]["what"] for k in known_seen],
+            "obligations_failing_as_known_findings": sorted(kf_only),
             "explanation": getattr(P, "explanation", ""),
             "lock": "present" if lock is not None else "absent",
         },
